@@ -16,6 +16,11 @@ import (
 // degrade to plain, uncontended semantics).
 var S *Sched
 
+// UnlockPoints makes every mutex release a scheduling point as well.  For data-race-free code that
+// adds nothing (switching at acquisitions reaches every behaviour); a harness sets it to reach code
+// that keeps using shared data after it let go of the lock.
+var UnlockPoints bool
+
 // Epoch is the virtual instant at which every execution starts.
 var Epoch = time.Date(2024, time.March, 5, 10, 0, 0, 0, time.UTC)
 
